@@ -8,7 +8,8 @@ from ..monitors import MON
 PID = "C10"
 LEVEL = "fault_enumeration"
 RULE = ("two real dilated wormholes (Noise stand-in) run a random application script - 0-3 subchannel "
-        "opens per side over 2 subprotocols, up to 30 writes of 1 B..70 kB in both directions of every "
+        "opens per side over 2 subprotocols, up to 30 writes of 1 B..131 kB (incl. every length around one and two "
+        "Noise messages, 65490-65545 and 131010-131070) in both directions of every "
         "subchannel, closes, some operations issued while no connection exists - while the selected L2 "
         "link is killed: cut at a swept scheduler step (every step of the baseline in the thorough tier), "
         "one direction blackholed first (data delivered but acks lost, and the reverse) then cut, "
